@@ -255,6 +255,46 @@ def big_graph(rng, n, m, geom=False):
     return {"n": n, "pos": pos, "edges": edges, "style": "big"}
 
 
+def serpentine(rng, n):
+    """A long street: nodes 0..n-1 laid out as a serpentine on a grid, consecutive nodes joined by cheap edges (some
+    one-way in the direction of increasing index, some stored against it, some doubled by a dearer parallel edge),
+    plus a few dear chords.  The shortest route from node 0 to node n-1 has about n hops."""
+    side = int(math.ceil(math.sqrt(n)))
+    pos = []
+    for i in range(n):
+        r, c = divmod(i, side)
+        pos.append([10 * (c if r % 2 == 0 else side - 1 - c), 10 * r])
+    edges = []
+    for i in range(n - 1):
+        w = rng.choice([0.5, 1, 1, 1, 2])
+        if rng.random() < 0.5:
+            edges.append([i, i + 1, w, rng.choice([0, 0, 1]), []])
+        else:
+            edges.append([i + 1, i, w, rng.choice([0, 0, -1]), []])
+        if rng.random() < 0.05:
+            edges.append([i, i + 1, w + rng.choice([0.5, 3]), 0, []])
+    for _ in range(max(2, n // 50)):
+        u, v = rng.randrange(n), rng.randrange(n)
+        edges.append([u, v, 4.0 * abs(u - v) + 8, 0, []])
+    return {"n": n, "pos": pos, "edges": edges, "style": "serpentine"}
+
+
+class LazyRows:
+    """Distance rows computed on demand (one Dijkstra per requested source)."""
+
+    def __init__(self, n, arc_list):
+        self.n = n
+        self.adj = [[] for _ in range(n)]
+        for a, b, w, _i, _f in arc_list:
+            self.adj[a].append((b, w))
+        self.rows = {}
+
+    def __getitem__(self, s):
+        if s not in self.rows:
+            self.rows[s] = dijkstra_from(self.n, self.adj, s)
+        return self.rows[s]
+
+
 # --------------------------------------------------------------------------
 # classes of a graph (input classes named by the properties)
 def graph_classes(spec, D):
